@@ -35,6 +35,17 @@ type Plan struct {
 	root       *selectionPlan
 	isMutation bool
 
+	// subPlans shares the plan of one (parent type, merged selection
+	// sets) group between all the places that reach it: a fragment
+	// spread under several fields is planned once, not once per path, and
+	// a fragment that reaches itself through a field (only possible in
+	// documents that skipped validation) yields a finite cyclic plan
+	// instead of unbounded recursion. planMu serialises planning, which
+	// also happens at execute time (abstract alternatives, dynamic
+	// levels); a plan is only visible to other goroutines once complete.
+	planMu   sync.Mutex
+	subPlans map[subPlanKey]*selectionPlan
+
 	// abstractMu guards lazy population of fieldPlan.abstractAlternatives,
 	// which happens at execute time (concurrently across fields) the
 	// first time each concrete type is encountered for an abstract field.
@@ -45,6 +56,11 @@ type Plan struct {
 // emit for one selection set under a known parent runtime type. The
 // plan tree mirrors the document, with one selectionPlan per object-
 // returning field's sub-selection.
+type subPlanKey struct {
+	parentType    *Object
+	selectionSets string // the merged selection sets, by identity
+}
+
 type selectionPlan struct {
 	parentType *Object
 	fields     []*fieldPlan
@@ -262,7 +278,9 @@ func (p *Plan) planSelectionSet(parentType *Object, selectionSet *ast.SelectionS
 	if selectionSet == nil {
 		return nil
 	}
-	return p.planSelectionSets(parentType, []*ast.SelectionSet{selectionSet}, &collectState{})
+	p.planMu.Lock()
+	defer p.planMu.Unlock()
+	return p.planSelectionSetsLocked(parentType, []*ast.SelectionSet{selectionSet}, &collectState{})
 }
 
 // planMergedFieldChildren walks every AST in fp.fieldASTs to merge
@@ -271,10 +289,11 @@ func (p *Plan) planSelectionSet(parentType *Object, selectionSet *ast.SelectionS
 // Abstract returns (Interface / Union) are planned lazily, per concrete
 // type, the first time that type is actually encountered at execute
 // time (see Plan.abstractAlternative): expanding every possible type
-// eagerly compounds to O(possibleTypes ^ nesting-depth).
+// eagerly compounds to O(possibleTypes ^ nesting-depth). Caller holds
+// planMu.
 func (p *Plan) planMergedFieldChildren(fp *fieldPlan) {
 	if obj, ok := unwrapNamedType(fp.returnType).(*Object); ok {
-		fp.sub = p.planSelectionSets(obj, selectionSetsOf(fp.fieldASTs), &collectState{})
+		fp.sub = p.planSelectionSetsLocked(obj, selectionSetsOf(fp.fieldASTs), &collectState{})
 	}
 }
 
@@ -311,19 +330,35 @@ func selectionSetsOf(fieldASTs []*ast.Field) []*ast.SelectionSet {
 // SelectionSet under one concrete parent type, returning a
 // selectionPlan that mirrors what CollectFields would produce.
 func (p *Plan) planMergedSelectionsForType(parentType *Object, fieldASTs []*ast.Field) *selectionPlan {
-	return p.planSelectionSets(parentType, selectionSetsOf(fieldASTs), &collectState{})
+	p.planMu.Lock()
+	defer p.planMu.Unlock()
+	return p.planSelectionSetsLocked(parentType, selectionSetsOf(fieldASTs), &collectState{})
 }
 
 // collectAtRuntime re-collects a dynamic selection-set level with the
 // request's variables, so that every @skip / @include is decided per
 // occurrence exactly as CollectFields does.
 func (p *Plan) collectAtRuntime(sp *selectionPlan, vars map[string]interface{}) *selectionPlan {
-	return p.planSelectionSets(sp.parentType, sp.dynamic, &collectState{runtime: true, vars: vars})
+	p.planMu.Lock()
+	defer p.planMu.Unlock()
+	return p.planSelectionSetsLocked(sp.parentType, sp.dynamic, &collectState{runtime: true, vars: vars})
 }
 
-// planSelectionSets plans the merged selection sets for one parent type.
-func (p *Plan) planSelectionSets(parentType *Object, selectionSets []*ast.SelectionSet, cs *collectState) *selectionPlan {
+// planSelectionSetsLocked plans the merged selection sets for one parent
+// type. Plan-time results are shared by key and registered before their
+// children are planned, so re-entering the same group closes a cycle.
+func (p *Plan) planSelectionSetsLocked(parentType *Object, selectionSets []*ast.SelectionSet, cs *collectState) *selectionPlan {
 	sp := &selectionPlan{parentType: parentType}
+	if !cs.runtime {
+		key := subPlanKey{parentType, fmt.Sprint(selectionSets)}
+		if shared, ok := p.subPlans[key]; ok {
+			return shared
+		}
+		if p.subPlans == nil {
+			p.subPlans = map[subPlanKey]*selectionPlan{}
+		}
+		p.subPlans[key] = sp
+	}
 	keyed := map[string]int{}
 	visited := map[string]bool{}
 	for _, selectionSet := range selectionSets {
